@@ -46,16 +46,13 @@ theorem expandItem_reachesEmptyDisj (ms : List MacroDef) (D : Name → Prop) (hD
       obtain ⟨ka, hka⟩ := exists_mem_zipIdx 0 halt
       obtain ⟨ki, hki⟩ := exists_mem_zipIdx 0 hit'
       obtain ⟨e, he⟩ := ih σ (π ++ [ka, ki]) it' m hm hinv'
-      have hin : (Except.error e : Except Err (List Item)) ∈
-          alt.zipIdx.map fun x => expandItem ms fuel σ (π ++ [ka, x.2]) x.1 :=
-        List.mem_map.2 ⟨(it', ki), hki, he⟩
-      obtain ⟨e1, he1⟩ := collectEager_error_of_mem hin
+      obtain ⟨e1, he1⟩ := mapLazy_error_of_mem
+        (f := fun x : Item × Nat => expandItem ms fuel σ (π ++ [ka, x.2]) x.1) hki he
       split
       · exact ⟨_, rfl⟩
       · rename_i alts' hok
         exfalso
-        refine collectEager_ne_ok_of_mem (e := e1) ?_ hok
-        refine List.mem_map.2 ⟨(alt, ka), hka, ?_⟩
+        refine mapLazy_ne_ok_of_mem (x := (alt, ka)) (e := e1) hka ?_ hok
         simp only [he1]
 
 theorem reachesEmptyDisj_of_diverging {ms : List MacroDef} {D : Name → Prop} (hD : Diverging ms D) :
@@ -103,9 +100,7 @@ theorem expandHead_diverging' (ms : List MacroDef) (D : Name → Prop) (hD : HDi
             · exact ⟨_, rfl⟩
             · obtain ⟨h', hh', m', hm', hinv'⟩ := hD m hm d hl
               obtain ⟨e, he⟩ := ih h' m' hm' hinv'
-              have hin : (Except.error e : Except Err (List HItem)) ∈ d.hbody.map (expandHead ms fuel) :=
-                List.mem_map.2 ⟨h', hh', he⟩
-              obtain ⟨e1, he1⟩ := collectEager_error_of_mem hin
+              obtain ⟨e1, he1⟩ := mapLazy_error_of_mem (f := expandHead ms fuel) hh' he
               simp only [he1]
               exact ⟨_, rfl⟩
 
@@ -113,9 +108,7 @@ theorem expandRule_head_diverging (ms : List MacroDef) (D : Name → Prop) (hD :
     (h : ∃ hd ∈ r.heads, ∃ m, D m ∧ HInvokes hd m) : ∃ e, expandRule ms r = .error e := by
   obtain ⟨hd, hhd, m, hm, hinv⟩ := h
   obtain ⟨e, he⟩ := expandHead_diverging' ms D hD depthBudget hd m hm hinv
-  have hin : (Except.error e : Except Err (List HItem)) ∈ r.heads.map (expandHead ms depthBudget) :=
-    List.mem_map.2 ⟨hd, hhd, he⟩
-  obtain ⟨e1, he1⟩ := collectEager_error_of_mem hin
+  obtain ⟨e1, he1⟩ := mapLazy_error_of_mem (f := expandHead ms depthBudget) hhd he
   unfold expandRule
   split
   · exact ⟨_, rfl⟩
@@ -188,12 +181,12 @@ theorem expandItem_fits_err (ms : List MacroDef) :
     · rename_i e1 he1
       simp only [Except.error.injEq] at he
       subst he
-      obtain ⟨a, ha, hfa⟩ := List.mem_map.1 (collectEager_error he1)
+      obtain ⟨a, ha, hfa⟩ := mapLazy_error he1
       split at hfa
       · rename_i e2 he2
         simp only [Except.error.injEq] at hfa
         subst hfa
-        obtain ⟨x, hx, hfx⟩ := List.mem_map.1 (collectEager_error he2)
+        obtain ⟨x, hx, hfx⟩ := mapLazy_error he2
         exact ih a.1 (List.fst_mem_of_mem_zipIdx ha) x.1 (List.fst_mem_of_mem_zipIdx hx) f σ _ (by omega) _ hfx
       · exact (flattenP_error hfa).elim
     · cases he
@@ -229,12 +222,12 @@ theorem expandItem_ne_panicFlatten (ms : List MacroDef) :
       · rename_i e1 he1
         simp only [Except.error.injEq] at he
         subst he
-        obtain ⟨a, ha, hfa⟩ := List.mem_map.1 (collectEager_error he1)
+        obtain ⟨a, ha, hfa⟩ := mapLazy_error he1
         split at hfa
         · rename_i e2 he2
           simp only [Except.error.injEq] at hfa
           subst hfa
-          obtain ⟨x, hx, hfx⟩ := List.mem_map.1 (collectEager_error he2)
+          obtain ⟨x, hx, hfx⟩ := mapLazy_error he2
           exact ih _ _ _ hfx
         · cases hfa
       · cases he
